@@ -246,6 +246,10 @@ class W:
             elif c == 13:
                 ml.clear()
             return [0]
+        if c == 32:
+            # an EXTENDED slice (step other than 1): ir.modules[a:b:c] = values
+            O[it[1]].modules[slice(it[2][0] if it[2] else None, it[3][0] if it[3] else None, it[4])] = self._form([O[x] for x in it[5]])
+            return [0]
         if c == 14:
             O[it[1]].address = it[2][0] if it[2] else None
             return [0]
